@@ -1,0 +1,27 @@
+//go:build verif
+
+// Package verifhook is an observation and fault-injection point for the external verification harness.
+// With the verif build tag At forwards to an installable handler, which may log the step, block (a scheduler
+// gate) or kill the process (a crash point). Without the tag At is an empty function.
+package verifhook
+
+import "sync/atomic"
+
+type Handler func(point string, args ...any)
+
+var handler atomic.Pointer[Handler]
+
+// Install sets the handler; nil removes it.
+func Install(h Handler) {
+	if h == nil {
+		handler.Store(nil)
+		return
+	}
+	handler.Store(&h)
+}
+
+func At(point string, args ...any) {
+	if h := handler.Load(); h != nil {
+		(*h)(point, args...)
+	}
+}
